@@ -1,6 +1,6 @@
 (** C03 -- wire codec lossless, matches the SCION format, never truncates silently:
     property theorems only. *)
-From Sci Require Import Wire.Codec Wire.Spec_C03 Wire.Proofs_C03 Wire.BitFieldProofs.
+From Sci Require Import Wire.Codec Wire.Spec_C03 Wire.Proofs_C03 Wire.BitFieldProofs Wire.ChecksumProofs.
 Local Open Scope N_scope.
 
 (** A model that cannot be represented on the wire is rejected: whenever the encoder's gate
@@ -55,3 +55,21 @@ Theorem read_write_disjoint_bytes_partial :
     lane_read (lane_write b r v) r2 = lane_read b r2.
 Proof. intros b r r2 v. exact (BitFieldProofs.read_after_write_other_bytes b r v r2). Qed.
 Print Assumptions read_write_disjoint_bytes_partial.
+
+(** The model of ChecksumDigest -- add_u64 / add_u32 limb sums, add_slice with its handling of
+    an odd start address (first byte taken as the low half of a big-endian word, byte swap of
+    the folded sum), of an odd length (last byte zero padded), native little-endian 16-bit
+    loads, double fold, final complement -- computes exactly the RFC 1071 checksum (literal
+    definition [Spec_C03.rfc1071]) of SCION pseudo header ++ message, for BOTH memory
+    alignments of the host-address scratch buffer and of the message, for every address header
+    the encoder accepts and every message of at most 2^17 bytes.  The bound is stated because
+    it is where the implementation's u32 accumulators could overflow: under it the digest and
+    the inner sum of add_slice stay below 2^32, so the model's unbounded arithmetic coincides
+    with the u32 arithmetic of the code. *)
+Theorem checksum_model_is_rfc1071 :
+  forall (h : pkt_hdr) (proto : N) (msg : bytes) (al_host al : bool),
+    addr_ok h -> 0 < proto < 256 -> bytes_ok msg = true -> blen msg <= 131072 ->
+    l4_checksum h proto msg al_host al = rfc1071 (pseudo_header h proto (blen msg) ++ msg)
+    /\ pseudo_digest h proto msg al_host al < 2 ^ 32 /\ slice_sum al msg < 2 ^ 32.
+Proof. exact l4_checksum_is_rfc1071. Qed.
+Print Assumptions checksum_model_is_rfc1071.
